@@ -185,8 +185,13 @@ package api
 //@   ensures [table-value-by-its-name] haskey(trackerStatusString, st) ==> res == trackerStatusString[st]
 //@   modifies nothing
 // the inverse direction: names are looked up in the table, unknown ones contribute nothing
+// (C06: a filter is written as a comma-separated list of status names; blanks anywhere in it are insignificant - they
+// are removed everywhere before the list is split, so that "pinned, remote" names two statuses)
+//@ extern strings.Split(s, sep)
+//@   modifies nothing
 //@ func TrackerStatusFromString
-//@   property C08 C11
+//@   property C08 C11 C06
+//@   at_call strings.Split assert [blanks-are-removed-everywhere-first] sep == "," && (arg_s == libfn("strings.Replace", 0, str, " ", "", -1) || arg_s == libfn("strings.ReplaceAll", 0, str, " ", ""))
 //@   modifies nothing
 //@ lemma every_status_has_a_name: haskey(trackerStatusString, TrackerStatusUndefined) && haskey(trackerStatusString, TrackerStatusClusterError) && haskey(trackerStatusString, TrackerStatusPinError) && haskey(trackerStatusString, TrackerStatusUnpinError) && haskey(trackerStatusString, TrackerStatusError) && haskey(trackerStatusString, TrackerStatusPinned) && haskey(trackerStatusString, TrackerStatusPinning) && haskey(trackerStatusString, TrackerStatusUnpinning) && haskey(trackerStatusString, TrackerStatusUnpinned) && haskey(trackerStatusString, TrackerStatusRemote) && haskey(trackerStatusString, TrackerStatusPinQueued) && haskey(trackerStatusString, TrackerStatusUnpinQueued) && haskey(trackerStatusString, TrackerStatusQueued) && haskey(trackerStatusString, TrackerStatusSharded) && haskey(trackerStatusString, TrackerStatusUnexpectedlyUnpinned)
 //@   property C08 C06
